@@ -86,7 +86,71 @@ type flagged interface {
 	IsRetry() bool
 }
 
+// timeOracle evaluates C17's clause on clock readings for executions whose events are sequential (no hedge) and in which no
+// retry policy sits inside a Timeout (such a policy stamps the Timeout's copy of the execution, which the policies outside
+// do not see): StartTime never changes during an execution, every observer of attempt k sees the same AttemptStartTime,
+// and that stamp does not decrease from one attempt to the next.
+type timedAttempt interface {
+	Attempts() int
+	StartTime() time.Time
+	AttemptStartTime() time.Time
+}
+
+var timeOracle struct {
+	mu     sync.Mutex
+	on     bool
+	start  time.Time
+	stamps map[int]time.Time
+	lastK  int
+}
+
+func timeOracleReset(on bool) {
+	timeOracle.mu.Lock()
+	timeOracle.on, timeOracle.start, timeOracle.stamps, timeOracle.lastK = on, time.Time{}, map[int]time.Time{}, 0
+	timeOracle.mu.Unlock()
+}
+
+func timeFlags(e any) string {
+	t, ok := e.(timedAttempt)
+	if !ok {
+		return ""
+	}
+	timeOracle.mu.Lock()
+	defer timeOracle.mu.Unlock()
+	if !timeOracle.on {
+		return ""
+	}
+	out := ""
+	k, st, ast := t.Attempts(), t.StartTime(), t.AttemptStartTime()
+	if timeOracle.start.IsZero() {
+		timeOracle.start = st
+	} else if !st.Equal(timeOracle.start) {
+		out += "!startTimeChanged"
+	}
+	if prev, seen := timeOracle.stamps[k]; seen {
+		if !prev.Equal(ast) {
+			out += fmt.Sprintf("!attemptStartTime(att=%d:differs-by-%s)", k, map[bool]string{true: "later", false: "earlier"}[ast.After(prev)])
+		}
+	} else {
+		timeOracle.stamps[k] = ast
+		if prev, ok := timeOracle.stamps[timeOracle.lastK]; ok && k > timeOracle.lastK && ast.Before(prev) {
+			out += fmt.Sprintf("!attemptStartTime(att=%d:before-att-%d)", k, timeOracle.lastK)
+		}
+		if k > timeOracle.lastK {
+			timeOracle.lastK = k
+		}
+	}
+	if ast.Before(st) {
+		out += "!attemptStartBeforeStart"
+	}
+	return out
+}
+
 func fl(e flagged) string {
+	return flagsOf(e) + timeFlags(e)
+}
+
+func flagsOf(e flagged) string {
 	a1 := e.Attempts()
 	first, retry := e.IsFirstAttempt(), e.IsRetry()
 	if a2 := e.Attempts(); a1 != a2 {
@@ -183,6 +247,24 @@ func (s *composeSlice) build() {
 			_ = b.WithMaxHedges(0).OnHedge(func(e failsafe.ExecutionEvent[int]) { s.emit("DECOY.hp", pos, e.Attempts(), e.Executions()) }).Build()
 		}
 	}
+}
+
+// timeOracleOn: no hedge, and no retry policy inside a Timeout
+func (s *composeSlice) timeOracleOn() bool {
+	inTimeout := false
+	for _, t := range s.polLines {
+		switch t[0] {
+		case "hedge":
+			return false
+		case "timeout":
+			inTimeout = true
+		case "retry":
+			if inTimeout {
+				return false
+			}
+		}
+	}
+	return true
 }
 
 // posOf returns the position at which instance `id` of a kind is used (needed by listeners registered at build time of
@@ -331,6 +413,7 @@ func (s *composeSlice) run(async bool, ck string, scriptText string, x string) s
 	s.mu.Lock()
 	s.log = s.log[:0]
 	s.mu.Unlock()
+	timeOracleReset(s.timeOracleOn())
 	var fnMu sync.Mutex
 	inv, completed := 0, 0
 	var wg sync.WaitGroup
